@@ -350,13 +350,9 @@ def deref (env : Env) (d : Doc) : Doc := derefF env (env.length + 1) d
 /-- `IsUndefined()` (Value.hpp:938-950): follows the whole pointer chain. -/
 def isUndefinedP (env : Env) (d : Doc) : Bool := (deref env d).isUndef
 
-/-- `IsObject()`, `IsArray()` … `IsNull()` (Value.hpp:952-1076): one level of indirection only
-(`value_->isX()` is the raw tag test). `k` is the kind number, not 0. -/
-def isKind1 (env : Env) (k : Nat) (d : Doc) : Bool :=
-  d.kindNum == k ||
-  (match d with
-   | ptr r => (envGet env r).kindNum == k
-   | _ => false)
+/-- `IsObject()`, `IsArray()` … `IsNull()` (Value.hpp:952-1076, after the repair "typed tests follow every
+pointer hop": `return value_->IsX();`; before it they looked through exactly one hop). `k` is the kind number. -/
+def isKind1 (env : Env) (k : Nat) (d : Doc) : Bool := (deref env d).kindNum == k
 
 /-- `GetNumberType()` (1082-1108): 0 NaN, 1 Real, 2 Natural, 3 Integer. -/
 def numberType (env : Env) (d : Doc) : Nat :=
